@@ -21,8 +21,9 @@ PROPS = {
         'covers': {'c18::h_any': ['has-dash'], 'c18::h_tokens': ['has-dash', 'nb-digits']},
     },
     'C04': {
-        'harnesses': ['c04::h_any', 'c04::h_skeletons'],
-        'covers': {'c04::h_any': ['compiles', 'rejected', 'matched'], 'c04::h_skeletons': ['compiles', 'matched', 'several-expansions']},
+        'harnesses': ['c04::h_any', 'c04::h_skeletons', 'c04::h_nesting'],
+        'covers': {'c04::h_any': ['compiles', 'rejected', 'matched'], 'c04::h_skeletons': ['compiles', 'matched', 'several-expansions'],
+                   'c04::h_nesting': ['compiles', 'rejected', 'matched']},
     },
     'C05': {
         'assumptions': ['glob::Pattern::{new,matches} (glob 0.3.1, default MatchOptions) is a Python transcription (stub of a dependency); every sampled path witness is re-run against the real crate'],
@@ -39,8 +40,8 @@ PROPS = {
         'covers': {'c14::h_entry': ['ok', 'err'], 'c14::h_list_small': ['two-entries']},
     },
     'C15': {
-        'harnesses': ['c15::h_all_kinds', 'c15::h_files'],
-        'covers': {'c15::h_files': ['some-file', 'ignored-file']},
+        'harnesses': ['c15::h_all_kinds', 'c15::h_files', 'c15::h_repeats'],
+        'covers': {'c15::h_files': ['some-file', 'ignored-file'], 'c15::h_repeats': ['repeated-dep']},
     },
     'C07': {
         'assumptions': ['HashMap iteration order is modelled as one of three orders (insertion, reverse, rotation) chosen nondeterministically', 'values contain no CR/LF (excluded by the property)'],
@@ -94,7 +95,7 @@ PROPS = {
     },
     'C17': {
         'assumptions': ["'promptly' is claimed only as: every path terminates within the interpreter's step cap (3M MIR steps)", 'file-system and reader stubs as in C20 / C13'],
-        'harnesses': ['c17::h_pattern', 'c17::h_pattern_tokens', 'c17::h_names', 'c17::h_revision_digits', 'c17::h_summary_text', 'c17::h_summary_stream', 'c17::h_bytes_parsers', 'c17::h_distinfo_line', 'c17::h_plist_line', 'c17::h_scanindex', 'c17::h_metadata', 'c17::h_pkgdb', 'c17::h_summary_calls'],
+        'harnesses': ['c17::h_pattern', 'c17::h_pattern_tokens', 'c17::h_names', 'c17::h_revision_digits', 'c17::h_summary_text', 'c17::h_summary_stream', 'c17::h_bytes_parsers', 'c17::h_distinfo_line', 'c17::h_plist_line', 'c17::h_scanindex', 'c17::h_metadata', 'c17::h_pkgdb', 'c17::h_summary_calls', 'c17::h_long'],
         'covers': {'c17::h_pkgdb': ['package-listed']},
         'max_paths': {'quick': 400000, 'thorough': 3000000},
     },
